@@ -771,12 +771,16 @@ impl FileStateMachine {
             data.iter().map(|(k, (v, t))| (k.clone(), (v.clone(), *t))).collect()
         };
 
+        // Rewrite through a sibling file and rename: truncating the live file first would leave an
+        // empty (or half-written) checkpoint behind a crash, after the WAL that could rebuild it
+        // has already been cleared by the previous checkpoint.
         let data_path = self.data_dir.join("state.data");
+        let tmp_path = self.data_dir.join("state.data.tmp");
         let mut file = OpenOptions::new()
             .write(true)
             .create(true)
             .truncate(true)
-            .open(data_path)
+            .open(&tmp_path)
             .await?;
         #[cfg(feature = "__verif")]
         d_engine_core::verif_hooks::crash_point("sm.persist_data.after_truncate");
@@ -797,6 +801,9 @@ impl FileStateMachine {
 
         file.write_all(&buf).await?;
         file.flush().await?;
+        file.sync_all().await?;
+        drop(file);
+        tokio::fs::rename(&tmp_path, &data_path).await?;
 
         Ok(())
     }
@@ -821,12 +828,14 @@ impl FileStateMachine {
     }
 
     async fn persist_metadata_async(&self) -> Result<(), Error> {
+        // Same pattern as persist_data_async: a short metadata.bin reads back as (0, 0).
         let metadata_path = self.data_dir.join("metadata.bin");
+        let tmp_path = self.data_dir.join("metadata.bin.tmp");
         let mut file = OpenOptions::new()
             .write(true)
             .create(true)
             .truncate(true)
-            .open(metadata_path)
+            .open(&tmp_path)
             .await?;
 
         let index = self.last_applied_index.load(Ordering::SeqCst);
@@ -840,6 +849,9 @@ impl FileStateMachine {
         file.write_all(&term.to_be_bytes()).await?;
 
         file.flush().await?;
+        file.sync_all().await?;
+        drop(file);
+        tokio::fs::rename(&tmp_path, &metadata_path).await?;
         Ok(())
     }
 
